@@ -169,7 +169,12 @@ type c17Diff struct {
 }
 
 func c17Run(c *Ctx, cs c17Case, args []reflect.Value, diff *c17Diff, count bool) {
-	x := c17Receiver(cs.Recv, cs.State)
+	var x any
+	if p := noPanic(func() { x = c17Receiver(cs.Recv, cs.State) }); p != "" {
+		// bringing the receiver into its state (Free, Init) is itself a call the property speaks about
+		c.Violation("panic:reaching-state:"+cs.Recv+":"+cs.State, fmt.Sprintf("bringing a %s into the state %q panicked: %s", cs.Recv, cs.State, p), cs, 1)
+		return
+	}
 	pv := reflect.New(reflect.TypeOf(x))
 	pv.Elem().Set(reflect.ValueOf(x))
 	desc := fmt.Sprintf("%s %s.%s(%s)", cs.State, cs.Recv, cs.Method, cs.Args)
@@ -401,11 +406,20 @@ func c17FreeReset(c *Ctx) int {
 						// Free: zeroes the handle unless read-only
 						ro := s
 						ro.SetReadOnly(true)
-						if err := ro.Free(); err == nil || !ro.IsInit() {
+						var err error
+						if p := noPanic(func() { err = ro.Free() }); p != "" {
+							c.Violation("panic:Free", fmt.Sprintf("Free on a read-only %s (variant %d) panicked: %s", kind, variant, p), nil, ln)
+							continue
+						}
+						if err == nil || !ro.IsInit() {
 							c.Violation("Free:read-only", fmt.Sprintf("Free on a read-only %s returned %v, IsInit=%v", kind, err, ro.IsInit()), nil, ln)
 						}
 						ro.SetReadOnly(false)
-						if err := ro.Free(); err != nil || !ro.IsZero() || ro.IsInit() {
+						if p := noPanic(func() { err = ro.Free() }); p != "" {
+							c.Violation("panic:Free", fmt.Sprintf("Free on %s (variant %d: 1 = fully configured, 2 = mutex and further settings) panicked: %s", kind, variant, p), nil, ln)
+							continue
+						}
+						if err != nil || !ro.IsZero() || ro.IsInit() {
 							c.Violation("Free:not-zero", fmt.Sprintf("Free on %s returned %v, IsZero=%v IsInit=%v", kind, err, ro.IsZero(), ro.IsInit()), nil, ln)
 						}
 					}
